@@ -225,6 +225,8 @@ type Sim struct {
 	stopped   bool
 	custom    func(ev *Event)
 	doneFn    func() bool
+	gstFn     func()
+	heightFn  func(h uint32)
 	noDone    bool
 }
 
@@ -433,7 +435,9 @@ func (s *Sim) setup() {
 	order := s.tape.Perm(SApp, len(s.nodes))
 	for _, i := range order {
 		var d int64
-		if sc.Family != "sync" && sc.Family != "pair" {
+		if sc.Family != "sync" && sc.Family != "pair" && sc.GST != 0 {
+			// (a message that arrives before Start has no instance to receive it:
+			// with synchrony from t=0 everybody boots at t=0, before the first delivery)
 			d = s.tape.Range(SApp, 0, 3) * sc.LatBase
 		}
 		s.after(d, &Event{Kind: EvBoot, Node: i})
@@ -451,6 +455,12 @@ func (s *Sim) setup() {
 	}
 	if sc.AdvPM > 0 && s.adv.active() {
 		s.after(sc.LatBase, &Event{Kind: EvAdv})
+	}
+	if sc.ClockJumps {
+		s.after(s.tape.Range(SFault, 1, 8)*int64(sc.TPB)/2, &Event{Kind: EvClockJump})
+	}
+	if sc.GST > 0 {
+		s.push(&Event{At: sc.GST, Kind: EvPartHeal, Aux: 1})
 	}
 }
 
@@ -519,7 +529,20 @@ func (s *Sim) dispatch(ev *Event) {
 	case EvPartStart:
 		s.partStart()
 	case EvPartHeal:
+		if ev.Aux == 1 {
+			s.atGST()
+		}
 		s.partHeal()
+	case EvClockJump:
+		n := s.nodes[s.tape.Draw(SFault, uint64(len(s.nodes)))]
+		d := s.tape.Range(SFault, 1, 12) * int64(s.sc.TPB) / 4
+		if s.tape.Chance(SFault, 1, 2) {
+			d = -d
+		}
+		n.jump += d
+		s.fault("clock_jump")
+		s.tracef("%s CLOCK JUMP %+.3fs", n, float64(d)/1e9)
+		s.after(s.tape.Range(SFault, 1, 8)*int64(s.sc.TPB)/2, &Event{Kind: EvClockJump})
 	case EvAdv:
 		s.adv.act()
 		if s.adv.active() {
@@ -703,6 +726,17 @@ func (s *Sim) partStart() {
 		s.after(dur, &Event{Kind: EvPartHeal})
 	} else {
 		s.fault("partition_never_heals")
+	}
+}
+
+// atGST: faults stop here; oracles that need a snapshot hook in through gstFn.
+func (s *Sim) atGST() {
+	s.tracef("GST reached: no new faults, latency <= %.3f ms", float64(s.sc.Delta)/1e6)
+	for _, n := range s.nodes {
+		n.stallUntil = 0
+	}
+	if s.gstFn != nil {
+		s.gstFn()
 	}
 }
 
